@@ -228,11 +228,11 @@ func (v V) rec() Rec {
 }
 
 // Constructors.
-func Str(s string) V   { return V{K: "string", S: s} }
-func Int(n int) V      { return V{K: "int", S: strconv.Itoa(n)} }
-func Bool(b bool) V    { return V{K: "bool", S: strconv.FormatBool(b)} }
-func Nil() V           { return V{K: "nil"} }
-func Missing() V       { return V{K: "missing"} }
+func Str(s string) V    { return V{K: "string", S: s} }
+func Int(n int) V       { return V{K: "int", S: strconv.Itoa(n)} }
+func Bool(b bool) V     { return V{K: "bool", S: strconv.FormatBool(b)} }
+func Nil() V            { return V{K: "nil"} }
+func Missing() V        { return V{K: "missing"} }
 func Num(k, s string) V { return V{K: k, S: s} }
 func List(k string, l ...V) V {
 	return V{K: k, L: l}
